@@ -153,6 +153,23 @@ STRUCT = {
         ['t = 4 | (self.a.get() if self.b.get() else self.s) & 1', 'self.s = self.b.get()', 'self.q.prepare(t)'],
         ['if (self.a.get() == 1 and (self.b.get() if self.s else 1) > 1):', '    self.s = 0', 'else:', '    self.s = 1', 'self.q.prepare(self.s)'],
     ],
+    'tuple': [
+        # tuple assignment (all right-hand sides are evaluated first): refused, or translated with that meaning
+        ['self.s, t = self.a.get(), self.s', 'self.q.prepare(t)'],
+        ['t = self.b.get()', 'self.s, t = t, self.s', 'self.q.prepare((t + self.s) & 7)'],
+        ['t, u = self.a.get(), self.b.get()', 'u, t = t, u + t', 'self.q.prepare(u)', 'self.s = t & 3'],
+    ],
+    'capture': [
+        # a capture pattern as the last case: the name is bound to the matched value
+        ['match self.a.get():', '    case 0:', '        self.s = 1', '    case other:', '        self.s = (self.s + other) & 3', 'self.q.prepare(self.s)'],
+        ['match self.s:', '    case 1:', '        self.s = 2', '    case rest:', '        self.s = 1', '        self.q.prepare(rest)'],
+    ],
+    'twoinst': [
+        # a constructor argument kept in an attribute and used as a constant: two instances with different arguments in one design
+        ['self.q.prepare(self.a.get() + self.k)'],
+        ['self.s = (self.s + self.k) & 7', 'self.q.prepare(self.s)'],
+        ['if (self.a.get() == self.k):', '    self.q.prepare(1)', 'else:', '    self.q.prepare(self.b.get() + self.k)'],
+    ],
     'locals': [
         ['t = self.a.get() + self.b.get()', 'u = t * 2', 'self.q.prepare(u + self.s)', 'self.s = t'],
         ['t = self.a.get()', 't = t + 1', 'self.q.prepare(t)'],
@@ -307,7 +324,15 @@ class Interp:
         return self.ev(e, max(target_width, self.sw(e)))
 
     def stmt(self, st):
-        if isinstance(st, ast.Assign):
+        if isinstance(st, ast.Assign) and isinstance(st.targets[0], ast.Tuple):
+            # a, b = x, y: every right-hand side is evaluated before any target is written
+            tg, val = st.targets[0], st.value
+            if not isinstance(val, ast.Tuple) or len(val.elts) != len(tg.elts):
+                raise NotImplementedError('unpacking')
+            vs = [self.top(e, 32) for e in val.elts]
+            for t, v in zip(tg.elts, vs):
+                self.assign(t, v)
+        elif isinstance(st, ast.Assign):
             v = self.top(st.value, 32)
             self.assign(st.targets[0], v)
         elif isinstance(st, ast.AugAssign):
@@ -341,6 +366,8 @@ class Interp:
         if isinstance(pat, ast.MatchValue):
             return subj == self.top(pat.value, 1)
         if isinstance(pat, ast.MatchAs) and pat.pattern is None:
+            if pat.name is not None:
+                self.loc[pat.name] = int(subj)       # capture pattern: the name is bound to the subject
             return True
         if isinstance(pat, ast.MatchOr):
             return any(self.match(q, subj) for q in pat.patterns)
